@@ -8,12 +8,13 @@
    - Literal(prefix+code) + WordEnd(chars): at end of input, or next char not in chars and previous in chars;
    - CharsNotIn(word_excluded): maximal non-empty run;  Word(nums): maximal non-empty digit run;
    - QuotedString(q, esc_char=backslash): single line, backslash escapes any char but LF; unquoting maps
-     backslash t n f r to the control characters, backslash + 3 octal digits / 0 / xHH / uHHHH to that code point
-     (UTF-8 here, the model works on UTF-8 bytes) and backslash + c to c;
+     backslash t n f r to the control characters, the numeric escapes of pyparsing 3.3.2 (see decode_esc) to a
+     code point (UTF-8 here, the model works on UTF-8 bytes) and backslash + c to c;
    - MatchFirst over the parts in table order, naked regex last;
    - infix_notation: base = atom or ( expr ); not-level = op_not not-level, falling back to base;
      and-level = not-level (op_and not-level)*, or-level likewise; no juxtaposition inside;
-   - OneOrMore(expr) at top level, FAnd of the items unless there is exactly one; parse_all. *)
+   - OneOrMore(expr) at top level, FAnd of the items unless there is exactly one; parse_all;
+   - parse_string expands tabs (str.expandtabs) before parsing unless the grammar has parse_with_tabs(). *)
 From Coq Require Import List Bool NArith Arith.
 From MV Require Import Base.Bytes Gen.FlowFilterAtoms.
 Import ListNotations.
@@ -89,38 +90,32 @@ Definition hexval (b : byte) : option N :=
   (if is_digit b then Some (bN b - 48)
    else if (97 <=? bN b) && (bN b <=? 102) then Some (bN b - 87)
    else if (65 <=? bN b) && (bN b <=? 70) then Some (bN b - 55) else None)%N.
-Fixpoint hexnum (k : nat) (acc : N) (s : bytes) : option N :=
-  match k with
-  | O => Some acc
-  | S k' => match s with
-            | h :: r => match hexval h with Some v => hexnum k' (acc * 16 + v)%N r | None => None end
-            | [] => None
-            end
-  end.
-(* d is the character after the backslash, r what follows; returns output and how many bytes of r are consumed *)
+(* d is the character after the backslash, r what follows; returns output and how many bytes of r are consumed.
+   pyparsing 3.3.2 builds its scan pattern with an rf-string, so the intended repetition counts {3} {2} {4} are
+   interpolated as the literal digits 3 2 4: backslash + octal digit + 3 yields those two characters,
+   backslash x + hex digit + 2 and backslash u + hex digit + 4 yield the code point with that hex value. *)
 Definition decode_esc (d : byte) (r : bytes) : bytes * nat :=
   if byte_eqb d x74 then ([x09], 0)
   else if byte_eqb d x6e then ([x0a], 0)
   else if byte_eqb d x66 then ([x0c], 0)
   else if byte_eqb d x72 then ([x0d], 0)
+  else if is_oct d && match r with e :: _ => byte_eqb e x33 | [] => false end then ([d; x33], 1)
+  else if byte_eqb d x30 then ([x00], 0)
   else
-    match (if is_oct d then
+    match (if byte_eqb d x78 || byte_eqb d x75 then
              match r with
-             | e1 :: e2 :: _ => if is_oct e1 && is_oct e2
-                                then Some (utf8 ((bN d - 48) * 64 + (bN e1 - 48) * 8 + (bN e2 - 48))%N, 2)
-                                else None
+             | h :: e :: _ =>
+                 if byte_eqb e (if byte_eqb d x78 then x32 else x34)
+                 then match hexval h with
+                      | Some v => Some (utf8 (v * 16 + (if byte_eqb d x78 then 2 else 4))%N, 2)
+                      | None => None
+                      end
+                 else None
              | _ => None
              end
            else None) with
     | Some x => x
-    | None =>
-        if byte_eqb d x30 then ([x00], 0)
-        else match (if byte_eqb d x78 then match hexnum 2 0%N r with Some v => Some (utf8 v, 2) | None => None end
-                    else if byte_eqb d x75 then match hexnum 4 0%N r with Some v => Some (utf8 v, 4) | None => None end
-                    else None) with
-             | Some x => x
-             | None => ([d], 0)
-             end
+    | None => ([d], 0)
     end.
 Fixpoint unq (skip : nat) (s : bytes) : bytes :=
   match s with
@@ -227,8 +222,7 @@ Fixpoint loop_n (op : byte) (sub : bytes -> rs) (n : nat) (s : bytes) : res (lis
 Definition p_bin (op : byte) (mk : list ast -> ast) (sub : bytes -> rs) (s : bytes) : rs :=
   match sub s with
   | Ok (x, r) => match loop_n op sub (S (length r)) r with
-                 | Ok ([], _) => Ok (x, r)
-                 | Ok (xs, r') => Ok (mk (x :: xs), r')
+                 | Ok (xs, r') => match xs with [] => Ok (x, r') | _ => Ok (mk (x :: xs), r') end
                  | Fail => Fail
                  | Fuel => Fuel
                  end
@@ -254,7 +248,20 @@ Fixpoint top_n (sub : bytes -> rs) (n : nat) (s : bytes) : res (list ast * bytes
             | Fuel => Fuel
             end
   end.
-Definition parse_grammar (s : bytes) : res ast :=
+(* str.expandtabs(8) on UTF-8 bytes: the column counts characters, restarts after LF / CR *)
+Fixpoint expandtabs (col : nat) (s : bytes) : bytes :=
+  match s with
+  | [] => []
+  | c :: r =>
+      if byte_eqb c x09 then repeat x20 (8 - col) ++ expandtabs 0 r
+      else if byte_eqb c LF || byte_eqb c CR then c :: expandtabs 0 r
+      else if (128 <=? bN c)%N && (bN c <? 192)%N then c :: expandtabs col r
+      else c :: expandtabs (Nat.modulo (S col) 8) r
+  end.
+(* parse_string expands tabs first unless parse_with_tabs() was called on the grammar *)
+Definition pre (s : bytes) : bytes := if keep_tabs then s else expandtabs 0 s.
+Definition parse_grammar (s0 : bytes) : res ast :=
+  let s := pre s0 in
   match s with
   | [] => Fail
   | _ => match top_n (parse_expr (S (length s))) (S (length s)) s with
